@@ -20,6 +20,12 @@ fn main() {
     match args[1].as_str() {
         "reader" => cmd_reader(&job),
         "writer" => cmd_writer(&job),
+        "faults" => {
+            let mut t = Trace::create(job["out"].as_str().unwrap());
+            let runs = vharness::faults::run(&job, &mut t);
+            let lines = t.finish();
+            println!("{}", serde_json::json!({"runs": runs, "events": lines}));
+        }
         "metaupdate" => {
             let mut t = Trace::create(job["out"].as_str().unwrap());
             let runs = vharness::meta::run(&job, &mut t);
